@@ -38,6 +38,21 @@ def rebuild(T, reverse):
         return T
 
 
+def canon(js):
+    """JSON with the members of every Union sorted: typing's caches make member order an artefact of which equal
+    union was built first, and the statement does not demand a canonical order.  Key order is preserved (it is judged)."""
+    def walk(d):
+        if isinstance(d, dict):
+            d = {k: walk(v) for k, v in d.items()}
+            if d.get("qualname") == "Union" and isinstance(d.get("elem_types"), list):
+                d["elem_types"] = sorted(d["elem_types"], key=lambda x: json.dumps(x, sort_keys=True))
+            return d
+        if isinstance(d, list):
+            return [walk(x) for x in d]
+        return d
+    return None if js is None else json.dumps(walk(json.loads(js)))
+
+
 def kinds(term):
     ks = set()
     for t in RT.walk(term):
@@ -94,9 +109,9 @@ def judge_type(res, T, desc):
     res.count("structure_judgements", 4)
     if again != js:
         res.violation("encoding-not-deterministic", f"{desc}: two encodings of one object differ", wit)
-    elif j1 != js:
+    elif canon(j1) != canon(js):
         res.violation("encoding-depends-on-identity", f"{desc}: structurally identical copy encodes differently", wit)
-    elif j2 != js:
+    elif canon(j2) != canon(js):
         res.violation("encoding-depends-on-field-order", f"{desc}: copy with permuted TypedDict field insertion order encodes differently", wit)
     elif RT.to_rt(enc.type_from_json(j3)) != term:
         res.violation("second-roundtrip-differs", f"{desc}", wit)
@@ -150,6 +165,25 @@ def judge_trace(res, fname, arg_types, ret, yld, desc, store=None):
         if a is not None and RT.to_rt(a) != RT.to_rt(b):
             res.violation(f"trace-{name}-differs", f"{desc}: {name} {a!r} decoded as {b!r}", wit)
             return
+    # encoding of a trace is a function of its structure: an independently built, structurally identical trace
+    # (fresh TypedDict objects, reversed field and argument insertion order) must serialise to an equal row
+    try:
+        t2 = CallTrace(func, {n: rebuild(arg_types[n], True) for n in reversed(list(arg_types))},
+                       None if ret is None else rebuild(ret, True), None if yld is None else rebuild(yld, True))
+        row2 = enc.CallTraceRow.from_trace(t2)
+        row1 = enc.CallTraceRow.from_trace(t)
+        res.count("row_structure_judgements")
+
+        same = all(canon(getattr(row1, c)) == canon(getattr(row2, c)) for c in ("arg_types", "return_type", "yield_type")) and \
+            (row1.module, row1.qualname) == (row2.module, row2.qualname)
+        if not same:
+            cols = [c for c in ("arg_types", "return_type", "yield_type") if getattr(row1, c) != getattr(row2, c)]
+            a, b = getattr(row1, cols[0]) or "", getattr(row2, cols[0]) or ""
+            i = next((j for j, (x, y) in enumerate(zip(a, b)) if x != y), 0)
+            res.violation("trace-row-encoding-depends-on-insertion-order",
+                          f"{desc}: structurally identical traces serialise to different rows ({cols}): ...{a[max(0, i - 60):i + 60]} vs ...{b[max(0, i - 60):i + 60]}", wit)
+    except Exception as e:
+        res.violation(f"trace-roundtrip-raises:{type(e).__name__}", f"{desc}: {e!r}", wit)
     res.shape("trace|" + fname + "|" + str(ret is None) + str(yld is None) + "|" + ",".join(sorted(RT.shape(RT.to_rt(v)) for v in arg_types.values())))
 
 
@@ -201,8 +235,10 @@ def work(p):
         fname = names[i % len(names)]
         argn = rng.choice([0, 1, 2])
         arg_types = {f"a{j}": rng.choice(pool) if pool else int for j in range(argn)}
-        ret = rng.choice([None, NoneType, rng.choice(pool) if pool else int])
-        yld = rng.choice([None, None, NoneType, rng.choice(pool) if pool else str])
+        from vf.fixtures import hier
+
+        ret = rng.choice([None, NoneType, rng.choice(pool) if pool else int, hier.Registry])
+        yld = rng.choice([None, None, NoneType, rng.choice(pool) if pool else str, hier.Registry])
         # arg types are used as dict values and set members in CallTrace.__hash__: TypedDict types are fine
         desc = f"{fname} args={ {k: repr(v)[:60] for k, v in arg_types.items()} } ret={ret!r:.60} yield={yld!r:.60}"
         judge_trace(res, fname, arg_types, ret, yld, desc, store if i % 3 == 0 else None)
